@@ -3,18 +3,34 @@
    Models: Gen/LinePP.v (hand model of _generate_with_line_buffer, tied by correspondence),
    Generated/Gen_LinePP.v (T2 translation of the two built-in processors and of the
    newline pattern, regenerated from /repo on every run). *)
-From Verif Require Import LinePP LinePPThm LinePPInst LinePPInstThm Gen_Pin_linebuf.
+From Verif Require Import LinePP LinePPThm LinePPRejoinThm LinePPInst LinePPInstThm Gen_Pin_linebuf.
 Open Scope N_scope.
 
 (* (0) Tie of the hand model Gen/LinePP.v to the source: the shape pin (tools/translators/shape_pin.py) regenerates
    Gen_Pin_linebuf.v from /repo on every run; `pin_linebuf_ok` is only defined when the normalised AST of
-   CodeGenerator._generate_with_line_buffer and _filter_and_write_line is the one the model was written for. *)
+   CodeGenerator._generate_with_line_buffer, _filter_and_write_line, _rejoin_split_crlf and
+   SupportGenerator._copy_header_using_line_pps is the one the model was written for. *)
 Example C15_linebuf_shape_pinned : pin_linebuf_ok = true.
 Proof. reflexivity. Qed.
 
-(* (1) Writing through ANY pipeline of line processors (arbitrary state machine `step`,
-   user processors included) equals applying the pipeline line by line to the complete
-   text -- for every chunking in which no chunk boundary separates a CR from its LF. *)
+(* (1) Writing through ANY pipeline of line processors (arbitrary state machine `step`, user processors included)
+   equals applying the pipeline line by line to the complete text -- for EVERY chunking, including empty chunks and
+   cuts between the CR and the LF of a terminator.  `write_rj` is the function as it is since fix 982f275 (the
+   chunk stream passes through _rejoin_split_crlf first). *)
+Theorem C15_chunk_independence :
+  forall (S : Type) (step : S -> line -> S * line) (chunks : list str) (st : S),
+    write_rj step chunks st = linewise step st (concat chunks).
+Proof. exact write_rj_linewise. Qed.
+Print Assumptions C15_chunk_independence.
+
+Theorem C15_same_text_same_file :
+  forall (S : Type) (step : S -> line -> S * line) (chunks1 chunks2 : list str) (st : S),
+    concat chunks1 = concat chunks2 -> write_rj step chunks1 st = write_rj step chunks2 st.
+Proof. exact write_rj_chunk_indep. Qed.
+Print Assumptions C15_same_text_same_file.
+
+(* Why the rejoin stage is needed (documentation of the repaired finding F-CRLF-SPLIT): the buffering loop alone
+   (`write`, the code before the fix) is chunking-independent only when no chunk boundary separates CR from LF ... *)
 Theorem C15_chunk_independence_partial :
   forall (S : Type) (step : S -> line -> S * line) (chunks : list str) (st : S),
     no_split_crlf false chunks = true ->
@@ -26,8 +42,7 @@ Proof.
 Qed.
 Print Assumptions C15_chunk_independence_partial.
 
-(* The full statement (every chunking) is false of the faithful model: known finding
-   F-CRLF-SPLIT.  Witness: "abc \r" | "\ndef" through TrimTrailingWhitespace. *)
+(* ... and is refuted otherwise.  Witness: "abc \r" | "\ndef" through TrimTrailingWhitespace. *)
 Theorem C15_chunk_independence_refuted :
   exists chunks : list str,
     snd (write pipe_step chunks [PTrim]) <> snd (linewise pipe_step [PTrim] (concat chunks)).
@@ -36,7 +51,13 @@ Proof.
 Qed.
 Print Assumptions C15_chunk_independence_refuted.
 
-(* non-vacuity of (1): a chunking with empty chunks, a CRLF inside a chunk and a cut right after a CR-less line *)
+(* the same witness through the repaired function *)
+Example C15_witness_repaired :
+  snd (write_rj pipe_step [[97; 98; 99; 32; 13]; [10; 100; 101; 102]] [PTrim])
+  = snd (linewise pipe_step [PTrim] [97; 98; 99; 32; 13; 10; 100; 101; 102]).
+Proof. vm_compute. reflexivity. Qed.
+
+(* non-vacuity of the partial statement: a chunking with empty chunks, a CRLF inside a chunk and a cut right after a CR-less line *)
 Example C15_partial_premise_satisfiable :
   no_split_crlf false [[97; 13; 10]; []; [98; 32]; [10; 10]; [99]] = true.
 Proof. vm_compute. reflexivity. Qed.
@@ -49,6 +70,22 @@ Theorem C15_no_processor_identity :
     forall chunks st, snd (write step chunks st) = concat chunks.
 Proof. exact identity_pipeline. Qed.
 Print Assumptions C15_no_processor_identity.
+
+Theorem C15_no_processor_identity_rj :
+  forall (S : Type) (step : S -> line -> S * line),
+    (forall st l, step st l = (st, l)) ->
+    forall chunks st, snd (write_rj step chunks st) = concat chunks.
+Proof. exact identity_pipeline_rj. Qed.
+Print Assumptions C15_no_processor_identity_rj.
+
+(* (2b) SupportGenerator._copy_header_using_line_pps: iterating the resource file line by line (Python text mode:
+   `py_lines`) and pushing each (content, terminator) tuple through the pipeline equals line-by-line application to the
+   whole text; in particular an unterminated last line keeps its last character (repaired finding F-COPY-LASTCHAR). *)
+Theorem C15_copy_header_linewise :
+  forall (S : Type) (step : S -> line -> S * line) (text : str) (st : S),
+    copy_header step (py_lines text) st = linewise step st text.
+Proof. exact copy_header_linewise. Qed.
+Print Assumptions C15_copy_header_linewise.
 
 (* (3) TrimTrailingWhitespace (translated) removes exactly the maximal trailing run of
    Python-whitespace code points of the line content and keeps the terminator. *)
